@@ -212,6 +212,21 @@ def run(ctx):
     for i in range(ctx.n(40, 1000)):
         for l, a in emit_cases(ctx.rng.randrange(10 ** 9)):
             lines.append(l); actual.append(a); names.append('emitProps')
+    # _setAttribute (optional attributes: id, name, sid, symbol, texcoord, ...) against Pyc.Emit.setAttr
+    import xml.etree.ElementTree as _ET
+    from collada.util import _setAttribute
+    pool = ['id', 'name', 'sid', 'symbol', 'texcoord', 'url']
+    for i in range(ctx.n(300, 6000)):
+        attrs = [(k, ctx.rng.choice(['a', 'b', 'x1'])) for k in ctx.rng.sample(pool, ctx.rng.randint(0, 4))]
+        name = ctx.rng.choice(pool)
+        value = ctx.rng.choice([None, None, 'v', 'w2'])
+        el = _ET.Element('e')
+        for k, v in attrs:
+            el.set(k, v)
+        _setAttribute(el, name, value)
+        lines.append('attr %s %s ; %s' % (name, '_' if value is None else value, ' '.join('%s:%s' % kv for kv in attrs)))
+        actual.append(' '.join('%s:%s' % kv for kv in el.attrib.items()))
+        names.append('setAttr')
     for nm in names:
         ctx.count('kernel:' + nm)
     if ctx.lean_ok:
